@@ -201,7 +201,10 @@ func (w *c25World) checkViews() {
 
 			return true, nil
 		}, true); err != nil {
-			w.t.Fatalf("view iter: %v", err)
+			// no fault is injected here and every earlier operation succeeded: a view that cannot iterate its own keys
+			// (e.g. because its range reaches keys of another prefix) is not isolated - a verdict, not a harness error
+			w.r.Violation(w.t, "view-iter-error", "view %q Iter(nil) failed on a healthy database: %v; prefixes %q; history: %s",
+				w.prefixes[i], err, w.prefixes, w.history())
 		}
 
 		var want []string
@@ -329,7 +332,8 @@ func (w *c25World) iterCompare(i int, rg *leveldbutil.Range, asc bool, stopAfter
 
 		return stopAfter == 0 || len(got) < stopAfter, nil
 	}, asc); err != nil {
-		t.Fatalf("iter: %v", err)
+		w.r.Violation(t, "view-iter-error", "view[%q].Iter(start=%q limit=%q asc=%v) failed on a healthy database: %v; prefixes %q; history: %s",
+			p, start, limit, asc, err, w.prefixes, w.history())
 	}
 
 	var want []string
